@@ -122,7 +122,7 @@ impl Model {
     pub fn apply(&mut self, op: &Op) -> Expect {
         let mut ex = Expect::default();
         match op {
-            Op::IterScript { v, script, clone_at, .. } => {
+            Op::IterScript { v, script, skips, clone_at, .. } => {
                 ex.nontrivial = !self.vecs[*v].is_empty();
                 let items = self.vecs[*v].clone();
                 let (mut lo, mut hi) = (0usize, items.len());
@@ -132,6 +132,16 @@ impl Model {
                         cloned = Some((lo, hi));
                     }
                     ex.out.lens.push(hi - lo);
+                    for _ in 0..skips.get(n).copied().unwrap_or(0) {
+                        if lo == hi {
+                            break;
+                        }
+                        if *back {
+                            hi -= 1;
+                        } else {
+                            lo += 1;
+                        }
+                    }
                     if lo == hi {
                         ex.out.vals.push(Val::None);
                     } else if *back {
